@@ -102,7 +102,7 @@ def main():
     casesA = [{"kind": "loc", "state": st, "storage": sto, "locs": ["a", "p", "q"], "ops": copy.deepcopy(o)} for o in opsA for st in ("indexed", "linear") for sto in ("mem", "bolt")]
     # minimised / recorded past failures run first (corpus/C06.jsonl)
     corpus = os.path.join(VERIF, "corpus", "C06.jsonl")
-    if os.path.exists(corpus):
+    if os.path.exists(corpus) and not os.environ.get("VERIF_NO_CORPUS"):       # (VERIF_NO_CORPUS: trying a seeded change on a commit older than the repair the corpus case belongs to)
         pre = []
         for l in open(corpus):
             if l.strip():
@@ -218,6 +218,12 @@ def main():
             ck.violation("%s failed (storage write %d), was repeated and acknowledged, and is lost by a reload: id %s live=%s reloaded=%s (%s state)" % (
                 c["ops"][kf_]["op"], c["failAt"], bad[0], str(lf.get(bad[0]))[:160], str(af.get(bad[0]))[:160], c["state"]),
                 {"case": c, "live": live, "reloaded": after}, tag="retry-reload")
+    # ---- B3: after a storage failure the live location is still one location: what it dispatches and finds is what a healthy
+    # location holding the same documents (the live one's own memory, read back by `snapshot`) dispatches and finds -- an index
+    # that was taken apart for an update and not put together again when the write failed shows here
+    OBS = [{"op": "event", "event": {"go": 1, "k": 1}}, {"op": "event", "event": {"go": "x", "k": 2}}, {"op": "search", "pattern": {"k": "?k"}, "inherited": False},
+           {"op": "search", "pattern": {"v": "?v"}, "inherited": False}, {"op": "searchRules", "event": {"go": 1, "k": "x"}, "inherited": False}, {"op": "listRules", "inherited": False}]
+    selfcons_phase(ck, lr, fcases, fout, OBS, rng, 160 if not ck.thorough else 100000)
     # crash points: run the acknowledged prefix on the model; after the crash storage must hold exactly that, except for the ids the interrupted op names (and their dependents)
     cout = run_cases(lr.drv, ccases)
     mprefix = []
